@@ -32,6 +32,9 @@ func mfn() (int, int) {
 func ifn(a int) int {
 	return a
 }
+func zfn() int {
+	return 7
+}
 func ifn2(a int, b string) int {
 	return a
 }
@@ -85,6 +88,10 @@ POSITIONS = [
     ("call-arg-second", "print(ifn2(1, {X}))", {"string"}),
     ("call-arity-more", "print(ifn(1, {X}))", set()),
     ("call-arity-less", "print(ifn2({X}))", set()),
+    ("call-zero-params-value", "print(zfn({X}))", set()),
+    ("call-zero-params-void", "vfn({X})", set()),
+    ("call-zero-params-multi", "ivar, ivar = mfn({X})", set()),
+    ("call-zero-params-two", "print(zfn({X}, {X}))", set()),
     ("if-cond", "if {X} {\n\tprint(1)\n}", {"bool"}),
     ("elif-cond", "if false {\n\tprint(1)\n} else if {X} {\n\tprint(2)\n}", {"bool"}),
     ("for-cond", "for {X} {\n\tbreak\n}", {"bool"}),
